@@ -49,7 +49,7 @@ class HarnessError(Exception):
 
 class Sub(object):
     def __init__(self, name, check, gen=None, examples=None, enum=None,
-                 doc='', machine=None, steps=50):
+                 doc='', machine=None, steps=50, fuzz=None, fuzz_runs=None):
         self.name = name
         self.check = check
         self.gen = gen            # () -> hypothesis strategy
@@ -58,6 +58,8 @@ class Sub(object):
         self.doc = doc
         self.machine = machine    # (record) -> RuleBasedStateMachine subclass; histories are replayed through check()
         self.steps = steps
+        self.fuzz = fuzz          # name of an atheris target in vf/fuzz.py (coverage-guided campaign, thorough tier)
+        self.fuzz_runs = fuzz_runs or {}
 
 
 # ---------------------------------------------------------------------------
@@ -218,7 +220,9 @@ def run_sub_shard(args):
                         continue
                     stats.enumerated += 1
                     exec_case(sub, case, stats, excludes)
-            if sub.gen is not None or sub.machine is not None:
+            if sub.fuzz is not None:
+                _run_fuzz(sub, tier, seed, shard, nshards, stats, out)
+            elif sub.gen is not None or sub.machine is not None:
                 n = sub.examples.get(tier, 100)
                 n_here = n // nshards + (1 if shard < n % nshards else 0)
                 if n_here > 0:
@@ -262,6 +266,59 @@ def _run_hypothesis(sub, n, hseed, stats, excludes):
         raise HarnessError('generator problem in %s: %r' % (sub.name, e))
     except herr.Flaky as e:
         raise HarnessError('non-deterministic case in %s: %r' % (sub.name, e))
+
+
+def _run_fuzz(sub, tier, seed, shard, nshards, stats, out):
+    """One libFuzzer campaign (atheris) in a child process: -runs/-seed pin it approximately; a
+    violation comes back as a JSON case judged by the same check function as the Hypothesis sub-checks."""
+    import shutil
+    import subprocess
+    import tempfile
+    runs = sub.fuzz_runs.get(tier, 0) // nshards
+    if runs <= 0:
+        return
+    try:
+        sys.path.append(os.path.join(VERIF, '.deps'))
+        import atheris  # noqa: F401
+    except ImportError:
+        out['fuzz_skipped'] = 'atheris is not installed (run.py setup installs it from the offline wheelhouse)'
+        return
+    d = tempfile.mkdtemp(prefix='rxsci_fuzz_')
+    try:
+        corpus = os.path.join(d, 'corpus')
+        os.makedirs(corpus)
+        cmd = [sys.executable, os.path.join(VERIF, 'vf', 'fuzz.py'), sub.fuzz, d, '-runs=%d' % runs,
+               '-seed=%d' % (seed * 1000 + shard + 1), '-max_len=256', '-print_final_stats=1', corpus]
+        r = subprocess.run(cmd, stdout=subprocess.PIPE, stderr=subprocess.STDOUT, cwd=d,
+                           env=dict(os.environ, PYTHONHASHSEED='0'))
+        txt = r.stdout.decode(errors='replace')
+        st = {}
+        if os.path.exists(os.path.join(d, 'stats.json')):
+            st = json.load(open(os.path.join(d, 'stats.json')))
+        done = [l for l in txt.splitlines() if l.startswith('Done ')]
+        n = int(done[0].split()[1]) if done else st.get('runs', 0)
+        stats.evaluations += n
+        stats.rejected += st.get('rejected', 0)
+        for h in st.get('hashes', []):
+            stats.nontrivial.add(h)
+        for c in st.get('samples', []):
+            stats._sample(c)
+        feats = [l for l in txt.splitlines() if 'ft:' in l]
+        if feats:
+            try:
+                stats.classes['fuzz:features'] = max(stats.classes['fuzz:features'], int(feats[-1].split('ft:')[1].split()[0]))
+            except (ValueError, IndexError):
+                pass
+        vp = os.path.join(d, 'violation.json')
+        if os.path.exists(vp):
+            v = json.load(open(vp))
+            vio = Violation(v['message'], **(v.get('details') if isinstance(v.get('details'), dict) else {}))
+            vio.case = v['case']
+            raise vio
+        if r.returncode != 0:
+            raise HarnessError('atheris campaign %s failed (exit %d):\n%s' % (sub.fuzz, r.returncode, txt[-1500:]))
+    finally:
+        shutil.rmtree(d, ignore_errors=True)
 
 
 def _run_machine(sub, n, hseed, stats, excludes):
